@@ -130,9 +130,34 @@ Proof.
   unfold meth_keys_ok in Hk. apply (nodup_map_factor pproj fst). exact Hk.
 Qed.
 
+Lemma forallb_perm {A} (p : A -> bool) l l' : Permutation l l' -> forallb p l = forallb p l'.
+Proof.
+  induction 1 as [|x l l' _ IH|x y l|l1 l2 l3 _ IH1 _ IH2]; cbn [forallb].
+  - reflexivity.
+  - rewrite IH. reflexivity.
+  - destruct (p x), (p y); reflexivity.
+  - congruence.
+Qed.
+
+Lemma forallb_forall2 {A} (R : A -> A -> Prop) (p : A -> bool) l l' :
+  (forall a b, R a b -> p a = p b) -> Forall2 R l l' -> forallb p l = forallb p l'.
+Proof. intros Hc. induction 1 as [|a b l l' Hab _ IH]; cbn [forallb]; [reflexivity|]. rewrite (Hc _ _ Hab), IH. reflexivity. Qed.
+
+Lemma meth_docs_writable_sim m m' : meth_sim m m' -> meth_docs_writable m = meth_docs_writable m'.
+Proof. intros (_ & _ & Hdoc & Hp). unfold meth_docs_writable. rewrite Hdoc, (forallb_perm _ _ _ Hp). reflexivity. Qed.
+
+Lemma class_docs_writable_sim c c' : class_sim c c' -> class_docs_writable c = class_docs_writable c'.
+Proof.
+  intros (_ & Hdoc & Hfp & (l'' & Hp & Hf2)). unfold class_docs_writable.
+  rewrite Hdoc, (forallb_perm _ _ _ Hfp), (forallb_perm _ _ _ Hp), (forallb_forall2 meth_sim _ _ _ meth_docs_writable_sim Hf2).
+  reflexivity.
+Qed.
+
 Lemma write_class_sim c c' d : class_keys_ok c -> class_sim c c' -> write_class c d = write_class c' d.
 Proof.
-  intros (Hf & Hm & Hmk) (Hn & Hdoc & Hfp & Hmp). unfold write_class, cls_key, cls_dst. rewrite <- Hn, <- Hdoc.
+  intros Hk Hsim. unfold write_class. rewrite <- (class_docs_writable_sim c c' Hsim).
+  destruct (class_docs_writable c); [|reflexivity]. revert Hk Hsim.
+  intros (Hf & Hm & Hmk) (Hn & Hdoc & Hfp & Hmp). unfold write_class_lines, cls_key, cls_dst. rewrite <- Hn, <- Hdoc.
   rewrite field_wleb_proj, meth_wleb_proj.
   rewrite (isort_proj_perm _ fproj (c_fields c) (c_fields c') cmp_spec_nd Hf Hfp).
   assert (Hs : Forall2 meth_sim (isort (proj_leb (pair_cmp names_cmp str_cmp) mproj) (c_methods c))
@@ -252,12 +277,6 @@ Proof.
   - apply nodupb_str_NoDup. apply nodupb_str_NoDup in E. eapply Permutation_NoDup; eauto.
   - destruct (nodupb str_eqb l') eqn:E'; [|reflexivity]. apply nodupb_str_NoDup in E'.
     assert (nodupb str_eqb l = true); [|congruence]. apply nodupb_str_NoDup. eapply Permutation_NoDup; [symmetry; exact Hp|exact E'].
-Qed.
-
-Lemma forallb_perm {A} (p : A -> bool) l l' : Permutation l l' -> forallb p l = forallb p l'.
-Proof.
-  induction 1 as [|x l l' _ IH|x y l|l1 l2 l3 _ IH1 _ IH2]; cbn [forallb]; try congruence.
-  destruct (p x), (p y); reflexivity.
 Qed.
 
 Definition named (M : list class) : list (str * class) := map (fun c => (file_name c, c)) (roots M).
